@@ -13,6 +13,10 @@ struct UserCV {
 	void notify_one() noexcept { cv.notify_one(); }
 	void notify_all() noexcept { cv.notify_all(); }
 	template <typename Lock, typename Pred> void wait(Lock & lock, Pred pred) { cv.wait(lock, pred); }
+	// the full condition-variable interface (the library may spell its waits as re-check loops around the plain forms)
+	template <typename Lock> void wait(Lock & lock) { cv.wait(lock); }
+	template <typename Lock, typename Rep, typename Period>
+	std::cv_status wait_for(Lock & lock, const std::chrono::duration<Rep, Period> & d) { return cv.wait_for(lock, d); }
 	template <typename Lock, typename Rep, typename Period, typename Pred>
 	bool wait_for(Lock & lock, const std::chrono::duration<Rep, Period> & d, Pred pred) { return cv.wait_for(lock, d, pred); }
 };
